@@ -179,8 +179,14 @@ pub fn draw_plan(rng: &mut Rng, index: u64, tier: Tier) -> ExecPlan {
     let long = index % 89 == 88;
     // storm stratum: every task hammers the process-wide lookup tables with its own keys
     let storm = !big && !long && index % 7 == 3;
+    // same-item stratum: all tasks compile ONE item (twice) - they race for whatever it builds lazily
+    let same: Option<Item> = if !big && !long && index % 7 == 5 && ntasks > 1 { Some(draw_item(rng)) } else { None };
     let mut tasks = vec![];
     for _ in 0..ntasks {
+        if let Some(it) = &same {
+            tasks.push(vec![it.clone(), it.clone()]);
+            continue;
+        }
         if storm {
             tasks.push((0..1 + rng.usize(3)).map(|_| lookup_storm(rng)).collect::<Vec<Item>>());
             continue;
